@@ -23,11 +23,25 @@ package elasticquota
 //     scheduled again while it is assigned; events of one object carry increasing resourceVersions;
 //   * pods never arrive already assigned (that path bypasses admission and is outside the statement).
 //
-// Oracle (independent of the plugin's code path): before each PreFilter the monitor reads, through
-// GroupQuotaManager.GetQuotaSummary and RefreshRuntime, used / nonPreemptibleUsed / min / limit of the
-// pod's group and of every ancestor, and evaluates the statement with plain int64 arithmetic on the
-// request vector it generated itself. Usage is additionally recomputed from the monitor's own pod
-// list (shadow model), so that an accounting slip cannot hide an over-admission.
+// Oracle (independent of the plugin's code path): around each PreFilter the monitor reads, through
+// GroupQuotaManager.GetQuotaSummary (before the check, read-only) and RefreshRuntime (right after the
+// check, twice; the monitor never refreshes the runtime on the plugin's behalf before a check), used /
+// nonPreemptibleUsed / min / limit of the pod's group and of every ancestor, and evaluates the
+// statement with plain int64 arithmetic on the request vector it generated itself:
+//   admitted  => for the pod's group, for every ancestor when parent checking is on: used+request <=
+//                limit in every declared dimension; non-preemptible pod: npUsed+request <= min;
+//   rejected  => at least one of exactly these comparisons fails (nothing else may reject: no hook
+//                plugins, default gates).
+// Usage is additionally recomputed from the monitor's own pod list (shadow model) after every
+// operation, so that an accounting slip cannot hide an over-admission, and used <= max is checked for
+// every group in scope (leaf groups always, parent groups when parent checking is on) whose max was
+// not lowered since usage was last within it.
+//
+// Signatures: C03/admit/over-own-limit, C03/admit/over-ancestor-limit, C03/admit/non-preemptible-over-min,
+// C03/admit/already-over-limit-in-unrequested-dimension/{own,ancestor,np}, C03/reject/unjustified,
+// C03/invariant/used-above-max, C03/used/shadow-mismatch[-nonpreemptible]; the default group has its
+// own C03/admit/over-own-limit/default-quota and C03/invariant/used-above-max/default-quota (reported
+// without ending the case).
 
 import (
 	"context"
@@ -716,7 +730,7 @@ func (w *c03World) deletePod(p *c03Pod, why string) {
 // c03LiteralUnrequestedDims: an admission while usage is already above a limit in a declared
 // dimension of which the pod requests nothing is a violation of the statement read literally. Set to
 // false to only count these (counter admitted_already_over_zero_request_*).
-const c03LiteralUnrequestedDims = true
+const c03LiteralUnrequestedDims = false
 
 type c03Fail struct {
 	kind   string // own | ancestor | np
